@@ -436,9 +436,9 @@ def write_summary_file_vue(stats, filepath, year=2025, currency_format="${amount
     }
 
     # Assemble final HTML
-    # '<' is written as \u003c so that text such as '</script>' or '<!--' inside a
-    # description, tag or merchant name cannot end or confuse the <script> element
-    # default=str: extra fields may hold dates (from supplemental data rows)
+    # - default=str: extra fields may hold dates (from supplemental data rows)
+    # - '<' is written as \u003c so that text such as '</script>' or '<!--' inside a
+    #   description, tag or merchant name cannot end or confuse the <script> element
     data_json = json.dumps(spending_data, default=str).replace('<', '\\u003c')
     data_script = f'window.spendingData = {data_json};'
 
@@ -472,12 +472,13 @@ def write_summary_file_vue(stats, filepath, year=2025, currency_format="${amount
         )
     else:
         # Embed everything inline (default)
+        # The data goes in last: it is user text and may itself contain a placeholder
         final_html = html_template.replace(
             '/* CSS_PLACEHOLDER */', css_content
         ).replace(
-            '/* DATA_PLACEHOLDER */', data_script
-        ).replace(
             '/* JS_PLACEHOLDER */', js_content
+        ).replace(
+            '/* DATA_PLACEHOLDER */', data_script
         )
 
     # Write output file
